@@ -41,6 +41,7 @@ func engineNLPSubset(ctx *Ctx) {
 	nQ := ctx.Pick(60, 90)
 	for d := 0; d < nDB; d++ {
 		var db *database.Database
+		everywhere := ""
 		dbName := fmt.Sprintf("gen-%d-%d", ctx.Shard, d)
 		if d == 0 && ctx.Shard%8 == 2 {
 			db = ctx.Shipped()
@@ -51,6 +52,21 @@ func engineNLPSubset(ctx *Ctx) {
 				sp.N = 150
 			}
 			cmds0 := vlib.GenCommands(r, sp)
+			if ctx.G(d)%6 == 5 && len(cmds0) >= 40 {
+				// a word every entry carries (a team tag, a product name): as common as a word can be
+				everywhere = []string{"runbook", "acme", "internal"}[r.Intn(3)]
+				for i := range cmds0 {
+					switch i % 3 {
+					case 0:
+						cmds0[i].Tags = append(cmds0[i].Tags, everywhere)
+					case 1:
+						cmds0[i].Keywords = append(cmds0[i].Keywords, everywhere)
+					default:
+						cmds0[i].Description += " " + everywhere
+					}
+				}
+				ctx.R.Path("databases-with-a-word-in-every-entry", 1)
+			}
 			if !ctx.R.Guard("C06", "LoadDatabase", dbName, func() { db = vlib.MustLoad(cmds0) }) {
 				continue
 			}
@@ -75,6 +91,16 @@ func engineNLPSubset(ctx *Ctx) {
 			q := vlib.GenQuery(r, words, nw, []int{0, 1}[r.Intn(2)])
 			if r.Intn(5) == 0 {
 				q += " " + []string{"without opening", "see the contents", "How do I", "café 日本語", "?!"}[r.Intn(5)]
+			}
+			if everywhere != "" && r.Intn(2) == 0 {
+				// the ubiquitous word among the first four words of a long request
+				f := strings.Fields(vlib.GenQuery(r, words, 9+r.Intn(6), 0))
+				at := r.Intn(4)
+				if at > len(f) {
+					at = len(f)
+				}
+				q = strings.Join(append(append(append([]string{}, f[:at]...), everywhere), f[at:]...), " ")
+				ctx.R.Path("long-queries-starting-with-a-ubiquitous-word", 1)
 			}
 			if r.Intn(7) == 0 {
 				// a chatty request: few content words spread over hundreds of bytes of filler (the CLI accepts 1000 bytes), one of them at the very end
